@@ -69,7 +69,9 @@ def kind_of(arr):
 def isna(c, kind):
     if kind == "f": return z3.fpIsNaN(c)
     if kind in _RANGE: return c == INT64_MIN
-    if kind in ("T", "U"): return tocell(c).is_empty()
+    if kind in ("T", "U"):
+        if type(c) is str: return z3.BoolVal(c == "")        # an opaque concrete text (possibly outside the bounded domain)
+        return tocell(c).is_empty()
     if kind == "O": return z3.BoolVal(c is None)
     return z3.BoolVal(False)
 
@@ -115,8 +117,12 @@ def cell_ident(a, b, kind):
             return ident(a.e, b.e)
         return z3.BoolVal(a == b)
     if kind in ("T", "U"):
-        if isinstance(a, str) and isinstance(b, str): return z3.BoolVal(a == b)
-        return tocell(a).eq(tocell(b))
+        if type(a) is str and type(b) is str: return z3.BoolVal(a == b)
+        try:
+            return tocell(a).eq(tocell(b))
+        except symx.ModelGap:
+            # a concrete text outside the bounded string domain (e.g. "None") equals no string of the domain
+            return z3.BoolVal(False)
     return ident(a, b)
 
 def const_int(e):
